@@ -11,6 +11,23 @@ Oracle (on the real code, per PDU kind X):
 Correspondence (model vs code): `x.enc <fields>` -> bits, `x.dec <bits>` -> fields + re-encoded bits or
 error kind, `elem <E> <v>`.
 The attributes crc_ok / crc9_ok are integrity indicators (property C04) and are not compared here.
+
+Hardening (after the missed seeded changes C03-C, C03-D):
+  special tokens -> token_dictionary(): BOMs, NUL runs, CR / LF forms, 7F/80 boundaries, all-ones, surrogates / invalid UTF-8,
+            ASCII specials, protocol constants; written at EVERY octet offset (and right-aligned) of every opaque / text-like
+            field of every variant, each placement crossed with every value of every selector field (covering_rows: pairwise in
+            quick, complete cross product in thorough); 7-bit characters at every bit offset of the short payload fields;
+            decode side: the tokens over valid encodings at every octet offset and at every bit offset.  Every such case goes
+            through the same oracle (check_fields / check_bits) and both directions of the correspondence.
+            Lean: Props/C03c (the decoder returns the received bits of the field verbatim, for every selector value).
+  history -> the models are pure functions; that the code behaves like one is probed on the real code: for every element
+            instance and every PDU variant as_bits / from_bits / as_bytes / from_bytes / convert are called twice (results must
+            be distinct objects and must not be attributes of the object or the caller's argument), every result obtained is
+            changed in place (MUT_OPS: += extend append item assignment invert clear setall slice assignment del reverse insert
+            pop frombytes) and the call repeated twice more, PDUs that carry the element are round-tripped before and after,
+            the argument of from_bits is left alone and changing it afterwards changes nothing, results are held while other
+            calls are made / until the end of the run (Holder) and re-verified.  Failures carry the history as input
+            ({"kind": "alias", "probe": ...}) and replay re-executes it.
 """
 import json
 import math
@@ -21,7 +38,7 @@ from bitarray.util import int2ba, ba2int
 from common import impl_error
 
 PROP = "C03"
-MODULES = ["C03", "C03a", "C03b"]
+MODULES = ["C03", "C03a", "C03b", "C03c"]
 GEN = ["Elements"]
 MATCHERS = {}
 
@@ -78,9 +95,10 @@ def shex(b):
 class U:
     """unsigned integer of w bits"""
 
-    def __init__(self, w, extra=()):
+    def __init__(self, w, extra=(), sel=None):
         self.w = w
         self.extra = tuple(extra)
+        self.sel = sel  # values that select a branch of the codec (crossed with the token placements)
 
     def rand(self, rng):
         return rng.getrandbits(self.w)
@@ -694,6 +712,7 @@ def mk_udp_kind():
     from okdmr.dmrlib.etsi.layer3.elements.udp_port_identifier import UDPPortIdentifier
 
     port_members = {m.value: m for m in UDPPortIdentifier}
+    PORT_SEL = [1, 2, 3, 95]  # text message, LIP, reserved, manufacturer specific
 
     def fmt(o, crc=None):
         e = lambda x: "-" if x is None else str(x)
@@ -715,9 +734,9 @@ def mk_udp_kind():
 
     ln = lambda v: 40 + 16 * (("e1" in v) + ("e2" in v)) + len(v["ud"])
     k.variants = [
-        Variant(k, "ext0", base + [("sp", UNZ(7)), ("dp", UNZ(7))], build, length=ln),
-        Variant(k, "ext1s", base + [("dp", UNZ(7)), ("e1", U(16))], build, length=ln),
-        Variant(k, "ext1d", base + [("sp", UNZ(7)), ("e1", U(16))], build, length=ln),
+        Variant(k, "ext0", base + [("sp", UNZ(7, sel=PORT_SEL)), ("dp", UNZ(7, sel=PORT_SEL))], build, length=ln),
+        Variant(k, "ext1s", base + [("dp", UNZ(7, sel=PORT_SEL)), ("e1", U(16))], build, length=ln),
+        Variant(k, "ext1d", base + [("sp", UNZ(7, sel=PORT_SEL)), ("e1", U(16))], build, length=ln),
         Variant(k, "ext2", base + [("e1", U(16)), ("e2", U(16))], build, length=ln),
     ]
 
@@ -760,6 +779,9 @@ def check_fields(ctx, kind, variant, vals, record=True):
     if err or bits is None:
         ctx.fail("as_bits-raises", inp, f"{kind.name}/{variant.name}: as_bits raised {err}", actual=err)
         return None
+    hold = getattr(ctx, "hold", None)
+    if hold is not None:
+        hold.keep(f"{kind.name}.as_bits", inp, bits)
     pa = attrs(p)
     want = variant.length(vals) if variant.length else kind.length
     if want is not None and len(bits) != want:
@@ -769,6 +791,8 @@ def check_fields(ctx, kind, variant, vals, record=True):
         ctx.fail("decode-of-encoded-raises", inp, f"{kind.name}/{variant.name}: from_bits(as_bits(p)) raised {err}", actual=err)
         return (kind.enc_line(p, vals), None, p, bits)
     qa = attrs(q)
+    if hold is not None:
+        hold.keep(f"{kind.name}.from_bits", inp, q, qa)
     d = diff_attrs(pa, qa)
     if d:
         ctx.fail("field-lost", inp, f"{kind.name}/{variant.name}: from_bits(as_bits(p)) differs from p in {d}",
@@ -777,7 +801,7 @@ def check_fields(ctx, kind, variant, vals, record=True):
     if err or b2 != bits:
         ctx.fail("bits-not-stable", inp, f"{kind.name}/{variant.name}: as_bits(from_bits(as_bits(p))) != as_bits(p)",
                  expected=sbits(bits), actual=err or sbits(b2))
-    return (kind.enc_line(p, vals), None, p, bits)
+    return (kind.enc_line(p, vals), (q, err or b2), p, bits)
 
 
 def check_bits(ctx, kind, b):
@@ -794,6 +818,10 @@ def check_bits(ctx, kind, b):
     if err or e1 is None:
         ctx.fail("as_bits-raises", inp, f"{kind.name}: as_bits of a decoded object raised {err}", actual=err)
         return "ERR as_bits"
+    hold = getattr(ctx, "hold", None)
+    if hold is not None:
+        hold.keep(f"{kind.name}.from_bits", inp, o)
+        hold.keep(f"{kind.name}.as_bits", inp, e1)
     if len(e1) != len(b):
         ctx.fail("wrong-length", inp, f"{kind.name}: decoded object serialises to {len(e1)} bits, not {len(b)}", expected=len(b), actual=len(e1))
     o2, err = call(kind.from_bits, bitarray(e1))
@@ -952,6 +980,895 @@ def check_gps_floats(ctx):
 
 
 # ------------------------------------------------------------------------------------------------
+# special-token dictionary for opaque / text-like payload fields (talker alias data, raw_data, broadcast_params,
+# user data of rate blocks, UDP payload, PI data, check fields kept verbatim, 16+ bit integers)
+def token_dictionary():
+    """[(class, bytes)] — deterministic order, no duplicates.  Classes are recorded in the evidence."""
+    toks, seen = [], set()
+
+    def add(cls_, *hexes):
+        for h in hexes:
+            b = h if isinstance(h, bytes) else bytes.fromhex(h)
+            if b and b not in seen:
+                seen.add(b)
+                toks.append((cls_, b))
+
+    # byte order marks: UTF-16 LE / BE, UTF-8, UTF-32 LE / BE, UTF-7
+    add("bom", "fffe", "feff", "efbbbf", "fffe0000", "0000feff", "2b2f76")
+    # NUL runs
+    add("nul", "00", "0000", "000000", "00000000")
+    # line ends: 8-bit, UTF-16 BE / LE
+    add("crlf", "0d0a", "0a0d", "0d", "0a", "000d000a", "0d000a00", "000a", "0a00", "000d", "0d00")
+    # 7F / 80 boundaries, sign boundaries
+    add("boundary", "7f", "80", "7f80", "807f", "7fff", "8000", "ff7f", "80000000", "7fffffff", "0080", "8080")
+    # all ones
+    add("ones", "ff", "ffff", "ffffff", "ffffffff")
+    # UTF-16 surrogates (BE / LE), non-characters, combining mark, invalid / overlong UTF-8
+    add("unicode", "d800", "00d8", "dc00", "00dc", "dfff", "d83dde00", "3dd800de", "0301", "0103", "c080", "c0af", "eda080",
+        "f4908080", "fe", "f8")
+    # ASCII specials: space(s), ESC, DEL neighbours, quote / escape / separator characters, digits
+    add("ascii", "20", "2020", "1b", "7e", "24", "2c", "5c", "22", "25", "30", "09", "0020", "2000")
+    # protocol constants: text-message UDP header / ports, feature set ids, ETSI special addresses, alternating bits
+    add("const", "0fa7", "0fa1", "0fa5", "1398", "10", "68", "fffec0", "fffecf", "fffffe", "fffffd", "aaaa", "5555", "a5", "5a")
+    try:
+        from okdmr.dmrlib.etsi.layer2.elements.crc_masks import CrcMasks
+        from okdmr.dmrlib.etsi.layer2.elements.sync_patterns import SyncPatterns
+
+        for m in CrcMasks:
+            if isinstance(m.value, int) and m.value > 0:
+                add("const", m.value.to_bytes(max(1, (m.value.bit_length() + 7) // 8), "big"))
+        for m in list(SyncPatterns)[:4]:
+            if isinstance(m.value, int) and m.value > 0:
+                add("const", m.value.to_bytes(6, "big"))
+    except BaseException:  # noqa: the dictionary must not depend on these modules being importable
+        pass
+    return toks
+
+
+def bits_of(b):
+    x = bitarray(endian="big")
+    x.frombytes(bytes(b))
+    return x.to01()
+
+
+def rand_bits(rng, n):
+    return int2ba(rng.getrandbits(n), length=n).to01() if n else ""
+
+
+def background(rng, n, mode):
+    """n background bits: random / zeros / random / ones"""
+    mode %= 4
+    if mode == 1:
+        return "0" * n
+    if mode == 3:
+        return "1" * n
+    return rand_bits(rng, n)
+
+
+def overlay01(bg, tok01, o):
+    """bit string bg with tok01 written at bit offset o (truncated at the end of bg)"""
+    t = tok01[: max(0, len(bg) - o)]
+    return bg[:o] + t + bg[o + len(t):]
+
+
+def opaque_info(spec):
+    """(class, width in bits) of a field that carries octets / bits the codec must pass through untouched;
+    'payload' = opaque or text-like payload, 'number' = check field kept verbatim or integer of >= 16 bits"""
+    if isinstance(spec, BYTES) and spec.n >= 1:
+        return ("payload", 8 * spec.n)
+    if isinstance(spec, VBITS):
+        return ("payload", None)
+    if isinstance(spec, CHOICE):
+        return opaque_info(spec.a)
+    if isinstance(spec, BITS) and spec.n >= 8:
+        return ("payload" if spec.n not in (16, 24) else "number", spec.n)
+    if isinstance(spec, U) and not isinstance(spec, UNZ) and spec.w >= 16:
+        return ("number", spec.w)
+    return None
+
+
+def opaque_offsets(spec, tok, full=False):
+    """bit offsets (relative to the field) at which the token is placed: every octet offset, and right-aligned"""
+    cls_, n = opaque_info(spec)
+    if n is None:  # variable length: the token ends the field, or is followed by a tail
+        return [8 * i for i in range(0, 11)] + ([8 * 24, 8 * 60, 8 * 140] if full else [])
+    offs = list(range(0, n, 8))
+    r = n - 8 * len(tok)
+    if r > 0 and r not in offs:
+        offs.append(r)
+    return offs
+
+
+def opaque_value(spec, tok, o, rng, mode, tail=0):
+    """plain-domain field value with the token at bit offset o"""
+    if isinstance(spec, CHOICE):
+        spec = spec.a
+    t01 = bits_of(tok)
+    if isinstance(spec, VBITS):
+        n = o + len(t01) + tail
+        return overlay01(background(rng, n, mode), t01, o)
+    if isinstance(spec, BYTES):
+        s = overlay01(background(rng, 8 * spec.n, mode), t01, o)
+        return bitarray(s).tobytes().hex()
+    if isinstance(spec, BITS):
+        return overlay01(background(rng, spec.n, mode), t01, o)
+    s = overlay01(background(rng, spec.w, mode), t01, o)  # U
+    return int(s, 2)
+
+
+SEPTETS = [("nul", "0000000"), ("del", "1111111"), ("cr", "0001101"), ("lf", "0001010"), ("space", "0100000"), ("esc", "0011011")]
+SEL_CAP = 16  # selector fields with at most this many values are crossed completely with every token placement
+
+
+def selector_domain(spec):
+    """values of a field that may select a branch of the codec: enum members, flags, small integers, check-field width"""
+    if isinstance(spec, E):
+        return [("v", x) for x in spec.vals]
+    if isinstance(spec, CHOICE):
+        return [("g", spec.a), ("g", spec.b)]
+    if isinstance(spec, U):
+        if getattr(spec, "sel", None):
+            return [("v", x) for x in spec.sel]
+        if spec.w <= 3:
+            return [("v", x) for x in range(1 << spec.w)]
+    return None
+
+
+def covering_rows(var, target, counter, rng, full=False):
+    """field assignments (without the target field) such that, for this token placement, EVERY value of every selector
+    field with <= SEL_CAP values occurs (pairwise covering: placement x selector value); selectors with more values rotate
+    with the placement counter, so that all their values are met over the placements; the other fields are random.
+    full=True (thorough): the complete cross product of the small selectors when it has at most 96 rows."""
+    sels = [(n, selector_domain(s)) for n, s in var.fields if n != target and selector_domain(s)]
+    small = [(n, d) for n, d in sels if len(d) <= SEL_CAP]
+    rows = max([len(d) for _, d in small] + [1])
+    combos = None
+    if full and small:
+        total = 1
+        for _, d in small:
+            total *= len(d)
+        if total <= 96:
+            import itertools
+
+            combos = list(itertools.product(*[range(len(d)) for _, d in small]))
+            rows = len(combos)
+    out = []
+    for r in range(rows):
+        vals = {}
+        for n, s in var.fields:
+            if n != target:
+                vals[n] = s.rand(rng)
+        for i, (n, d) in enumerate(sels):
+            if combos is not None and (n, d) in small:
+                idx = combos[r][small.index((n, d))]
+            elif len(d) <= rows:
+                idx = (r + counter * (i + 1)) % len(d)
+            else:
+                idx = (r + counter * rows) % len(d)
+            how, x = d[idx]
+            vals[n] = x if how == "v" else x.rand(rng)
+        out.append(vals)
+    return out
+
+
+def token_field_cases(ctx, var, rng, toks):
+    """yield (desc, vals, token class) — every token at every octet offset of every opaque field of the variant, crossed with
+    the selector values (covering_rows)"""
+    counter = 0
+    full = ctx.thorough()
+    for fname, spec in var.fields:
+        info = opaque_info(spec)
+        if info is None:
+            continue
+        kind_, _n = info
+        for ti, (tcls, tok) in enumerate(toks):
+            for o in opaque_offsets(spec, tok, full):
+                counter += 1
+                if kind_ == "number" and not full and (counter + ti) % 3:
+                    continue  # quick: check fields / integers get a rotating third of the dictionary
+                rows = covering_rows(var, fname, counter, rng, full=full and kind_ == "payload")
+                if kind_ == "number" and not full:
+                    rows = rows[counter % len(rows):][:1]
+                for r, vals in enumerate(rows):
+                    tail = (0, 3, 16)[(counter + r) % 3]
+                    vals = dict(vals)
+                    vals[fname] = opaque_value(spec, tok, o, rng, r + counter, tail=tail)
+                    # keep the order of the variant's field list (canonical descriptions)
+                    vals = {n: vals[n] for n, _s in var.fields}
+                    if var.fix:
+                        vals = var.fix(vals)
+                    yield (fname, tok.hex(), o, r), vals, tcls
+        # 7-bit packed text (talker alias 7-bit format and the like): 7-bit characters at every BIT offset of the payload
+        if kind_ == "payload" and _n is not None and (_n <= 64 or full):
+            base_spec = spec.a if isinstance(spec, CHOICE) else spec
+            for s7name, s7 in SEPTETS:
+                for o in range(_n):
+                    counter += 1
+                    for r, vals in enumerate(covering_rows(var, fname, counter, rng)):
+                        vals = dict(vals)
+                        s01 = overlay01(background(rng, _n, r + counter), s7, o)
+                        vals[fname] = bitarray(s01).tobytes().hex() if isinstance(base_spec, BYTES) else (s01 if isinstance(base_spec, BITS) else int(s01, 2))
+                        vals = {n: vals[n] for n, _s in var.fields}
+                        if var.fix:
+                            vals = var.fix(vals)
+                        yield (fname, "7bit-" + s7name, o, r), vals, "septet"
+
+
+def variant_bases(k, rng, per_variant=4):
+    """valid encodings of the kind: per variant a few objects whose selector fields follow the covering rows"""
+    bases = []
+    for vi, var in enumerate(k.variants):
+        rows = covering_rows(var, None, vi, rng)
+        step = max(1, len(rows) // per_variant)
+        for vals in rows[::step][:per_variant]:
+            vals = {n: vals[n] for n, _s in var.fields}
+            p, err = call(var.build, vals)
+            if err:
+                continue
+            bits, err = call(p.as_bits)
+            if err or bits is None or not len(bits):
+                continue
+            bases.append((var.name, bitarray(bits)))
+    return bases
+
+
+def token_overlay_cases(ctx, k, rng, toks):
+    """yield (desc, bitarray): valid encodings (and, for kinds without field variants, random right-length strings) with a token
+    written over the PDU at every octet offset — reaches tokens that straddle field boundaries — and, with a rotating
+    multi-octet token, at every BIT offset (7-bit packed text, fields that are not octet aligned)"""
+    bases = variant_bases(k, rng)
+    if not bases:
+        bases = [("-", k.bit_seeds(rng)) for _ in range(4)]
+    full = ctx.thorough()
+    stride = 1 if full else (4 if k.name.startswith("rate") else 2)
+    phase = rng.randrange(stride)
+    counter = 0
+    for ti, (tcls, tok) in enumerate(toks):
+        t = bitarray(bits_of(tok))
+        maxlen = max(len(b) for _, b in bases)
+        for off in range(0, maxlen, 8):
+            counter += 1
+            if (counter + ti) % stride != phase:
+                continue
+            for j in range(len(bases) if full else 1):  # thorough: every base (variant x selector row)
+                vname, base = bases[(counter + j) % len(bases)]
+                if off >= len(base):
+                    continue
+                b = base.copy()
+                n = min(len(t), len(b) - off)
+                b[off:off + n] = t[:n]
+                yield ("octet", vname, tok.hex(), off), b, tcls
+    multi = [(c, t) for c, t in toks if len(t) >= 2]
+    per = {}
+    for vname, base in bases:
+        if vname in per and not full:
+            continue  # quick: one base per variant
+        per[vname] = True
+        for o in range(len(base)):
+            counter += 1
+            tcls, tok = multi[counter % len(multi)]
+            t = bitarray(bits_of(tok))
+            b = base.copy()
+            n = min(len(t), len(b) - o)
+            b[o:o + n] = t[:n]
+            yield ("bit", vname, tok.hex(), o), b, tcls
+
+
+# ------------------------------------------------------------------------------------------------
+# result aliasing / history dependence: every as_bits / from_bits / as_bytes / from_bytes of every element and PDU must behave
+# like a function of its argument — results are fresh objects, mutating a returned object (or the argument, afterwards)
+# changes nothing that a later call returns, results held across other calls keep their value
+MUT_OPS = ["+=", "extend", "append", "setitem", "invert", "clear", "setall", "slice=", "del", "reverse", "insert", "pop", "frombytes"]
+
+
+def is_enum(x):
+    import enum
+
+    return isinstance(x, enum.Enum)
+
+
+def is_container(x):
+    return isinstance(x, (bitarray, bytearray, list, dict, set))
+
+
+def mutate_in_place(x, op):
+    """one of the ordinary in-place idioms on a returned mutable container; returns False if nothing applicable"""
+    try:
+        if isinstance(x, bitarray):
+            if op == "+=":
+                x += bitarray("1011001110001111" * 4)
+            elif op == "extend":
+                x.extend([1, 0, 1])
+            elif op == "append":
+                x.append(1)
+            elif op == "setitem":
+                if not len(x):
+                    return False
+                x[0] = not x[0]
+                x[-1] = not x[-1]
+            elif op == "invert":
+                if not len(x):
+                    return False
+                x.invert()
+            elif op == "clear":
+                if not len(x):
+                    return False
+                x.clear()
+            elif op == "setall":
+                if not len(x) or x.all():
+                    x.extend([0])
+                x.setall(1)
+            elif op == "slice=":
+                x[0:len(x) // 2] = bitarray("10" * 9)
+            elif op == "del":
+                if not len(x):
+                    return False
+                del x[0]
+            elif op == "reverse":
+                x.reverse()
+                x.append(0)
+            elif op == "insert":
+                x.insert(0, 1)
+            elif op == "pop":
+                if not len(x):
+                    return False
+                x.pop()
+            elif op == "frombytes":
+                x.frombytes(b"\xff\xfe")
+            else:
+                return False
+            return True
+        if isinstance(x, bytearray):
+            if op in ("clear", "del", "pop") and len(x):
+                del x[0]
+            elif op in ("setitem", "invert", "setall") and len(x):
+                x[0] ^= 0xFF
+            else:
+                x += b"\xff\xfe"
+            return True
+        if isinstance(x, list):
+            if op in ("clear", "del", "pop") and x:
+                x.pop()
+            else:
+                x.append(None)
+            return True
+        if isinstance(x, dict):
+            x["<mutated>"] = 1
+            return True
+        if isinstance(x, set):
+            x.add("<mutated>")
+            return True
+    except BaseException:  # noqa: an operation the container refuses leaves it as it is
+        return False
+    return False
+
+
+_DEFAULT_IDS = {}
+
+
+def constructor_default_ids(cls):
+    """ids of the mutable default arguments of cls.__init__ (shared between objects by Python itself: the subject of
+    property C19, not of this probe)"""
+    import inspect
+
+    if cls not in _DEFAULT_IDS:
+        ids = set()
+        try:
+            for p in inspect.signature(cls.__init__).parameters.values():
+                if p.default is not inspect.Parameter.empty and (is_container(p.default) or hasattr(p.default, "__dict__")) and not is_enum(p.default):
+                    ids.add(id(p.default))
+        except BaseException:  # noqa
+            pass
+        _DEFAULT_IDS[cls] = ids
+    return _DEFAULT_IDS[cls]
+
+
+def mutable_parts(o, path="", out=None, depth=0):
+    """[(path, owner, attribute, object)]: mutable containers / nested objects reachable through the attributes of o
+    (enum members are shared by design and not entered; constructor defaults are left out)"""
+    if out is None:
+        out = []
+    if depth > 3 or not hasattr(o, "__dict__") or is_enum(o):
+        return out
+    skip = constructor_default_ids(type(o))
+    for name, v in sorted(vars(o).items()):
+        if is_enum(v) or id(v) in skip:
+            continue
+        if is_container(v):
+            out.append((path + name, o, name, v))
+        elif hasattr(v, "__dict__") and not isinstance(v, type):
+            out.append((path + name, o, name, v))
+            mutable_parts(v, path + name + ".", out, depth + 1)
+    return out
+
+
+def scramble(o, op):
+    """change every attribute of a returned object: containers in place (op), everything else by rebinding"""
+    for path, owner, name, v in mutable_parts(o):
+        if is_container(v):
+            mutate_in_place(v, op)
+    stack = [o]
+    while stack:
+        x = stack.pop()
+        if not hasattr(x, "__dict__") or is_enum(x):
+            continue
+        for name, v in sorted(vars(x).items()):
+            if isinstance(v, bool):
+                setattr(x, name, not v)
+            elif isinstance(v, int):
+                setattr(x, name, v ^ 1)
+            elif isinstance(v, float):
+                setattr(x, name, v + 1.0)
+            elif isinstance(v, bytes):
+                setattr(x, name, b"\xff\xfe" + v[:1])
+            elif is_enum(v):
+                ms = list(type(v))
+                setattr(x, name, ms[(ms.index(v) + 1) % len(ms)])
+            elif v is None:
+                setattr(x, name, 0)
+            elif hasattr(v, "__dict__") and not isinstance(v, type):
+                stack.append(v)
+
+
+def outcome(r, err):
+    """canonical outcome of a call, for comparing two calls with each other"""
+    if err:
+        return err
+    if hasattr(r, "__dict__") and not is_enum(r):
+        return attrs(r)
+    return canon(r)
+
+
+class SubCtx:
+    """collects the failures of a nested check (follow-up of a history, replay)"""
+
+    def __init__(self):
+        self.failures = []
+        self.hist = {}
+        self.hold = None
+
+    def fail(self, kind, input, what, expected=None, actual=None):
+        self.failures.append((kind, what, expected, actual))
+
+    def count(self, *a, **k):
+        pass
+
+    def case(self, *a, **k):
+        pass
+
+
+def alias_element_classes():
+    """name -> class, for every class of the element packages that defines as_bits or from_bits (enums and plain classes)"""
+    import importlib
+    import pkgutil
+
+    out = {}
+    for pkg_name in ("okdmr.dmrlib.etsi.layer2.elements", "okdmr.dmrlib.etsi.layer3.elements"):
+        pkg = importlib.import_module(pkg_name)
+        for mi in sorted(pkgutil.iter_modules(pkg.__path__), key=lambda m: m.name):
+            mod = importlib.import_module(f"{pkg_name}.{mi.name}")
+            for name, obj in sorted(vars(mod).items()):
+                if isinstance(obj, type) and obj.__module__ == mod.__name__ and ("as_bits" in vars(obj) or "from_bits" in vars(obj)):
+                    out[name] = obj
+    return out
+
+
+def element_instances(cls):
+    """[(key, instance)] of an element class: the members of an enum; FragmentSequenceNumber(0..15); ServiceOptions is a PDU kind"""
+    import enum
+
+    if issubclass(cls, enum.Enum):
+        return [(m.name, m) for m in cls]
+    if cls.__name__ == "FragmentSequenceNumber":
+        return [(v, cls(v)) for v in range(16)]
+    return []
+
+
+def element_instance(cls, key):
+    import enum
+
+    return cls[key] if issubclass(cls, enum.Enum) else cls(key)
+
+
+_CARRIERS = {}
+
+
+def element_carriers(ks):
+    """element class name -> [(kind, variant, field name | None, fixed member | None)]: the PDU variants that serialise a member
+    of the class, through a field of the variant (E spec) or as the variant's own opcode / format (found on a sample object)"""
+    import random
+
+    key = id(ks)
+    if key in _CARRIERS:
+        return _CARRIERS[key]
+    rng = random.Random(3)
+    idx = {}
+    for k in ks.values():
+        for var in k.variants:
+            spec_classes = set()
+            for fname, spec in var.fields:
+                if isinstance(spec, E):
+                    spec_classes.add(spec.cls)
+                    idx.setdefault(spec.cls.__name__, []).append((k, var, fname, None))
+            p, err = call(var.build, var.random_vals(rng))
+            if err:
+                continue
+            for name, v in sorted(vars(p).items()):
+                if is_enum(v) and type(v) not in spec_classes:
+                    idx.setdefault(type(v).__name__, []).append((k, var, None, v))
+    _CARRIERS[key] = idx
+    return idx
+
+
+def probe_element(ctx, spec, ks, ref=None):
+    """history on one element instance: as_bits twice; mutate the first result in place (spec['op']); as_bits again; from_bits of
+    the value; then build / serialise / decode PDUs that carry the instance.  Deterministic from spec."""
+    import random
+
+    cls = alias_element_classes().get(spec["element"])
+    if cls is None:
+        return
+    m = element_instance(cls, spec["member"])
+    op = spec["op"]
+    tag = f"{cls.__name__}.{spec['member']}"
+    if "as_bits" not in vars(cls):
+        return
+    a, err = call(m.as_bits)
+    if err or not isinstance(a, bitarray):
+        b, err2 = call(m.as_bits)
+        if outcome(a, err) != outcome(b, err2):
+            ctx.fail("alias-unstable", spec, f"{tag}.as_bits(): two calls give {outcome(a, err)} and {outcome(b, err2)}")
+        return
+    value = getattr(m, "value", None)
+    # reference value: the integer value on the width of the first result of the run (taken before any history)
+    w = len(ref) if ref is not None else len(a)
+    if isinstance(value, int) and not isinstance(value, bool) and 0 <= value < (1 << w):
+        want = int2ba(value, length=w).to01()
+    else:
+        want = ref if ref is not None else a.to01()
+    if a.to01() != want:
+        ctx.fail("alias-element-value", spec, f"{tag}.as_bits() is {sbits(a)} ({len(a)} bits), not {want}", expected=want, actual=sbits(a))
+    b, err = call(m.as_bits)
+    if b is a:
+        ctx.fail("alias-same-object", spec, f"{tag}.as_bits() returns the same mutable bitarray object on every call: a caller that extends "
+                 "or edits its copy changes what every later call (and every PDU carrying the element) serialises")
+    # PDUs that carry the instance: checked once BEFORE the history (a failure there is an ordinary round-trip failure and is reported
+    # as such) and again after it (a failure that appears only then is caused by the history)
+    plan = plan_element_pdus(ks, cls, m, tag, op) if is_enum(m) else []
+    sound = []
+    for k, var, vals in plan:
+        n0 = len(ctx.failures)
+        check_fields(ctx, k, var, vals)
+        if len(ctx.failures) == n0:
+            sound.append((k, var, vals))
+    if not mutate_in_place(a, op):
+        return
+    if isinstance(b, bitarray) and b is not a:
+        mutate_in_place(b, op)  # a cache may be filled by the first call and served from the second on
+    for nth in ("next", "next but one"):
+        c, err = call(m.as_bits)
+        if err or not isinstance(c, bitarray) or c.to01() != want:
+            ctx.fail("alias-mutation-visible", spec, f"after `x = {tag}.as_bits(); x {op} …` the {nth} {tag}.as_bits() is "
+                     f"{err or (str(len(c)) + ' bits ' + sbits(c))}", expected=want, actual=err or sbits(c))
+            break
+        mutate_in_place(c, op)
+    if "from_bits" in vars(cls):
+        inb = bitarray(want)
+        r, err = call(cls.from_bits, inb)
+        if inb.to01() != want:
+            ctx.fail("alias-argument-modified", spec, f"{cls.__name__}.from_bits modifies its argument", expected=want, actual=sbits(inb))
+        if is_enum(m) and (err or r is not m):
+            ctx.fail("alias-element-from_bits", spec, f"{cls.__name__}.from_bits({want}) is {err or r}, not the member {tag}")
+        if not err and not is_enum(m):
+            r2, err2 = call(cls.from_bits, bitarray(want))
+            if r2 is r:
+                ctx.fail("alias-same-object", spec, f"{cls.__name__}.from_bits returns the same mutable object on every call")
+            snap = outcome(r, None)
+            scramble(r, op)
+            r3, err3 = call(cls.from_bits, bitarray(want))
+            if outcome(r3, err3) != snap:
+                ctx.fail("alias-mutation-visible", spec, f"after changing the object returned by {cls.__name__}.from_bits({want}) the next call "
+                         f"returns {outcome(r3, err3)}", expected=snap, actual=outcome(r3, err3))
+    for k, var, vals in sound:
+        sub = SubCtx()
+        check_fields(sub, k, var, vals)
+        ctx.count("alias:element-then-pdu")
+        for kind_, what, exp, act in sub.failures[:1]:
+            ctx.fail("alias-poisons-pdu", dict(spec, then={"kind": k.name, "variant": var.name, "fields": vals}),
+                     f"after `x = {tag}.as_bits(); x {op} …` (the same PDU round-trips before): {what}", expected=exp, actual=act)
+    # a shared object that was changed is put back (in place) after it was reported, so that the rest of the run is evaluated on an
+    # unpoisoned library and further findings are not drowned
+    c, err = call(m.as_bits)
+    if not err and isinstance(c, bitarray) and c.to01() != want:
+        c.clear()
+        c.extend(bitarray(want))
+        ctx.count("alias:restored-shared-object")
+
+
+def plan_element_pdus(ks, cls, m, tag, op):
+    """[(kind, variant, field values)]: up to two PDU variants that serialise the member m (deterministic from the probe's name)"""
+    import random
+
+    cands = [c for c in element_carriers(ks).get(cls.__name__, []) if c[3] is None or c[3] is m]
+    if not cands:
+        return []
+    rng = random.Random(f"{tag}:{op}")
+    start = rng.randrange(len(cands))
+    out = []
+    for j in range(min(2, len(cands))):
+        k, var, fname, _fixed = cands[(start + j) % len(cands)]
+        vals = var.random_vals(rng)
+        if fname is not None:
+            if m.value not in dict(var.fields)[fname].vals:
+                continue
+            vals[fname] = m.value
+        out.append((k, var, vals))
+    return out
+
+
+def probe_pdu(ctx, spec, ks):
+    """history on one PDU built from fields: as_bits twice, mutate the first result in place, as_bits again (same object and a fresh
+    object with equal fields), as_bytes before / after; from_bits twice on the same bits, the argument left alone, the two objects
+    share nothing mutable, changing one object (and, afterwards, the argument) does not change the other or a third decode;
+    results held while other PDUs are built, serialised and decoded keep their value.  Deterministic from spec."""
+    import random
+
+    k = ks.get(spec["pdu"])
+    if k is None:
+        return
+    var = next((v for v in k.variants if v.name == spec["variant"]), None)
+    if var is None:
+        return
+    vals, op = spec["fields"], spec["op"]
+    tag = f"{k.name}/{var.name}"
+    p, err = call(var.build, vals)
+    if err:
+        return  # reported by the field sweep
+    before = attrs(p)
+    a, err = call(p.as_bits)
+    if err or not isinstance(a, bitarray):
+        return
+    if attrs(p) != before:
+        ctx.fail("alias-as_bits-changes-object", spec, f"{tag}: as_bits() changes attributes {diff_attrs(before, attrs(p))} of the object it serialises")
+        before = attrs(p)
+    s0 = a.to01()
+    b, err = call(p.as_bits)
+    if b is a:
+        ctx.fail("alias-same-object", spec, f"{tag}: as_bits() returns the same mutable bitarray object on every call")
+    for path, _owner, _name, v in mutable_parts(p):
+        if v is a:
+            ctx.fail("alias-internal-field", spec, f"{tag}: as_bits() returns the object's own attribute {path}, not a copy")
+    y0 = None
+    if hasattr(p, "as_bytes"):
+        y, yerr = call(p.as_bytes)
+        y0 = outcome(y, yerr)
+        if isinstance(y, bytearray):
+            mutate_in_place(y, op)
+    rng = random.Random(f"{tag}:{op}:{s0}")
+    if op == "other-calls":
+        # hold the results while other objects of the same kind are built, serialised and decoded
+        o, oerr = call(k.from_bits, bitarray(s0))
+        osnap = outcome(o, oerr)
+        for _ in range(6):
+            v2 = rng.choice(k.variants)
+            p2, e2 = call(v2.build, v2.random_vals(rng))
+            if e2:
+                continue
+            b2, e2 = call(p2.as_bits)
+            if not e2 and isinstance(b2, bitarray):
+                call(k.from_bits, bitarray(b2))
+            call(k.from_bits, k.bit_seeds(rng))
+        if a.to01() != s0:
+            ctx.fail("alias-held-result-changed", spec, f"{tag}: a bitarray returned by as_bits() changed while other PDUs were serialised / decoded "
+                     "(shared output buffer)", expected=s0, actual=sbits(a))
+        if outcome(o, oerr) != osnap:
+            ctx.fail("alias-held-result-changed", spec, f"{tag}: an object returned by from_bits() changed while other PDUs were serialised / decoded",
+                     expected=osnap, actual=outcome(o, oerr))
+    elif mutate_in_place(a, op):
+        if attrs(p) != before:
+            ctx.fail("alias-internal-field", spec, f"{tag}: changing the bitarray returned by as_bits() ({op}) changes attributes "
+                     f"{diff_attrs(before, attrs(p))} of the object", expected={x: before.get(x) for x in diff_attrs(before, attrs(p))})
+            return
+        if isinstance(b, bitarray) and b is not a:
+            mutate_in_place(b, op)  # a cache may be filled by the first call and served from the second on
+        for nth in ("next", "next but one"):
+            c, err = call(p.as_bits)
+            if err or not isinstance(c, bitarray) or c.to01() != s0:
+                ctx.fail("alias-mutation-visible", spec, f"{tag}: after `x = p.as_bits(); x {op} …` the {nth} p.as_bits() differs", expected=s0, actual=err or sbits(c))
+                break
+            mutate_in_place(c, op)
+        p2, err = call(var.build, vals)
+        if not err:
+            c2, err = call(p2.as_bits)
+            if err or not isinstance(c2, bitarray) or c2.to01() != s0:
+                ctx.fail("alias-mutation-visible", spec, f"{tag}: after `x = p.as_bits(); x {op} …` an equal object built from the same fields serialises differently",
+                         expected=s0, actual=err or sbits(c2))
+    if y0 is not None:
+        y, yerr = call(p.as_bytes)
+        if outcome(y, yerr) != y0:
+            ctx.fail("alias-mutation-visible", spec, f"{tag}: as_bytes() differs after the history", expected=y0, actual=outcome(y, yerr))
+    # ---- decode side
+    inb = bitarray(s0)
+    o1, err = call(k.from_bits, inb)
+    if err or o1 is None or not hasattr(o1, "__dict__"):
+        return
+    if inb.to01() != s0:
+        ctx.fail("alias-argument-modified", spec, f"{tag}: from_bits modifies its argument", expected=s0, actual=sbits(inb))
+        inb = bitarray(s0)
+    o2, err = call(k.from_bits, inb)
+    if err:
+        ctx.fail("alias-unstable", spec, f"{tag}: the second from_bits of the same bits raised {err}")
+        return
+    if o2 is o1:
+        ctx.fail("alias-same-object", spec, f"{tag}: from_bits returns the same mutable object for the same bits")
+        return
+    snap = attrs(o1)
+    if attrs(o2) != snap:
+        ctx.fail("alias-unstable", spec, f"{tag}: two from_bits of the same bits differ in {diff_attrs(snap, attrs(o2))}")
+        return
+    ids1 = {id(v): path for path, _o, _n, v in mutable_parts(o1)}
+    for path, _o, _n, v in mutable_parts(o2):
+        if id(v) in ids1:
+            ctx.fail("alias-shared-attribute", spec, f"{tag}: two decoded objects share the mutable attribute {path}")
+            return
+    for path, _o, _n, v in mutable_parts(o1):
+        if v is inb:
+            ctx.fail("alias-shared-attribute", spec, f"{tag}: the decoded object keeps the caller's bitarray as attribute {path}")
+            return
+    e0, err = call(o1.as_bits)
+    e0 = err or sbits(e0)
+    if op != "other-calls":
+        scramble(o1, op)
+        if attrs(o2) != snap:
+            ctx.fail("alias-mutation-visible", spec, f"{tag}: changing one decoded object changes another one in {diff_attrs(snap, attrs(o2))}")
+            return
+        mutate_in_place(inb, op)
+        if attrs(o2) != snap:
+            ctx.fail("alias-shared-attribute", spec, f"{tag}: changing the argument after from_bits changes the decoded object in {diff_attrs(snap, attrs(o2))}")
+            return
+        scramble(o2, op)  # every object obtained so far is changed: a cache may be served from the second call on
+        for nth in ("next", "next but one"):
+            o3, err = call(k.from_bits, bitarray(s0))
+            if err or attrs(o3) != snap:
+                ctx.fail("alias-mutation-visible", spec, f"{tag}: after changing the decoded objects, the {nth} from_bits of the same bits returns something else",
+                         expected=snap, actual=err or attrs(o3))
+                return
+            e3, err = call(o3.as_bits)
+            if (err or sbits(e3)) != e0:
+                ctx.fail("alias-mutation-visible", spec, f"{tag}: after changing the decoded objects, a new decode serialises differently", expected=e0, actual=err or sbits(e3))
+                return
+            scramble(o3, op)
+    # rate blocks: convert(type) returns a new object each time and leaves the block alone
+    if getattr(k, "rate", None) and op != "other-calls":
+        members = k.rate[2]
+        for t2 in RATE_TYPES:
+            c1, e1 = call(p.convert, members[t2])
+            c2, e2 = call(p.convert, members[t2])
+            if outcome(c1, e1) != outcome(c2, e2):
+                ctx.fail("alias-unstable", spec, f"{tag}: two convert({t2}) of the same block differ")
+            elif not e1 and c1 is not None and (c1 is c2 or c1 is p):
+                ctx.fail("alias-same-object", spec, f"{tag}: convert({t2}) returns {'the block itself' if c1 is p else 'the same object on every call'}")
+            elif not e1 and c1 is not None:
+                s1 = outcome(c1, None)
+                scramble(c1, op)
+                scramble(c2, op)
+                c3, e3 = call(p.convert, members[t2])
+                if attrs(p) != before or outcome(c3, e3) != s1:
+                    ctx.fail("alias-mutation-visible", spec, f"{tag}: changing the object returned by convert({t2}) changes the block or the next convert",
+                             expected=s1, actual=outcome(c3, e3))
+    fb = getattr(type(p), "from_bytes", None)
+    if fb is not None and hasattr(p, "as_bytes"):
+        y, yerr = call(build_again_bytes, var, vals)
+        if not yerr and isinstance(y, (bytes, bytearray)):
+            q1, e1 = call(fb, bytes(y))
+            q2, e2 = call(fb, bytes(y))
+            s1 = outcome(q1, e1)
+            if outcome(q2, e2) != s1:
+                ctx.fail("alias-unstable", spec, f"{tag}: two from_bytes of the same octets differ")
+            elif q1 is not None and q1 is q2 and hasattr(q1, "__dict__"):
+                ctx.fail("alias-same-object", spec, f"{tag}: from_bytes returns the same mutable object for the same octets")
+            elif q1 is not None and hasattr(q1, "__dict__") and op != "other-calls":
+                scramble(q1, op)
+                q3, e3 = call(fb, bytes(y))
+                if outcome(q3, e3) != s1:
+                    ctx.fail("alias-mutation-visible", spec, f"{tag}: after changing an object returned by from_bytes, the next from_bytes differs",
+                             expected=s1, actual=outcome(q3, e3))
+
+
+def build_again_bytes(var, vals):
+    return var.build(vals).as_bytes()
+
+
+class Holder:
+    """results kept across the whole run and re-verified later: a bitarray returned by as_bits, an object returned by from_bits —
+    with the value they had when they were returned"""
+
+    def __init__(self, every, cap):
+        self.every, self.cap = every, cap
+        self.items = []
+        self.n = 0
+        self.reported = 0
+
+    def keep(self, entry, inp, obj, snap=None):
+        self.n += 1
+        if self.n % self.every or len(self.items) >= self.cap:
+            return
+        if isinstance(obj, bitarray):
+            snap = obj.to01()
+        elif snap is None:
+            snap = attrs(obj)
+        self.items.append((entry, inp, obj, snap, self.n))
+
+    def verify(self, ctx):
+        keep = []
+        for entry, inp, obj, snap, n in self.items:
+            now = obj.to01() if isinstance(obj, bitarray) else attrs(obj)
+            if now != snap:
+                self.reported += 1
+                if self.reported <= 10:
+                    ctx.fail("alias-held-result-changed", {"kind": "alias", "probe": "held", "entry": entry, "first": inp, "calls_since": self.n - n},
+                             f"the result of {entry} changed after it was returned, while {self.n - n} later cases ran (shared buffer / cached object)",
+                             expected=snap if isinstance(snap, str) else {x: snap.get(x) for x in diff_attrs(snap, now)},
+                             actual=now if isinstance(now, str) else {x: now.get(x) for x in diff_attrs(snap, now)})
+            else:
+                keep.append((entry, inp, obj, snap, n))
+        ctx.count("alias:held-verified", len(self.items))
+        self.items = keep
+
+
+def alias_elements(ctx, ks):
+    """every element instance x every in-place operation; the first results of every instance are held until the end of the run"""
+    held = []
+    classes = alias_element_classes()
+    for cname, cls in classes.items():
+        for key, m in element_instances(cls):
+            if "as_bits" not in vars(cls):
+                continue
+            r, err = call(m.as_bits)
+            held.append((cname, key, r, outcome(r, err)))
+    refs = {(c, key): (r.to01() if isinstance(r, bitarray) else None) for c, key, r, _s in held}
+    for cname, cls in classes.items():
+        for key, m in element_instances(cls):
+            for op in MUT_OPS:
+                spec = {"kind": "alias", "probe": "element", "element": cname, "member": key, "op": op}
+                ctx.case(("alias", "element", cname, key, op), nontrivial=True,
+                         sample=spec if (cname, key, op) == ("FeatureSetIDs", "StandardizedFID", "+=") else None)
+                ctx.count("alias:element")
+                probe_element(ctx, spec, ks, ref=refs.get((cname, key)))
+    return held
+
+
+def alias_elements_final(ctx, held):
+    for cname, key, r, snap in held:
+        now = outcome(r, None) if isinstance(r, bitarray) else snap
+        if now != snap:
+            ctx.fail("alias-held-result-changed", {"kind": "alias", "probe": "element-held", "element": cname, "member": key},
+                     f"the bitarray returned by the first {cname}.{key}.as_bits() of the run changed while the run went on", expected=snap, actual=now)
+        cls = alias_element_classes()[cname]
+        r2, err = call(element_instance(cls, key).as_bits)
+        if outcome(r2, err) != snap:
+            ctx.fail("alias-mutation-visible", {"kind": "alias", "probe": "element-held", "element": cname, "member": key},
+                     f"{cname}.{key}.as_bits() at the end of the run differs from the first call of the run", expected=snap, actual=outcome(r2, err))
+    ctx.count("alias:element-held", len(held))
+
+
+def alias_pdus(ctx, k, ks):
+    """every variant of the kind x every in-place operation (+ 'other-calls') on a few field tuples"""
+    n = ctx.budget(1, 6)
+    for var in k.variants:
+        for i in range(n):
+            for op in MUT_OPS + ["other-calls"]:
+                vals = var.random_vals(ctx.rng)
+                if var.fix:
+                    vals = var.fix(vals)
+                spec = {"kind": "alias", "probe": "pdu", "pdu": k.name, "variant": var.name, "fields": vals, "op": op}
+                ctx.case(("alias", "pdu", k.name, var.name, json.dumps(vals, sort_keys=True), op), nontrivial=True,
+                         sample=spec if (i == 0 and op == "+=" and var is k.variants[0] and k.name == "csbk") else None)
+                ctx.count(f"alias:pdu:{k.name}")
+                probe_pdu(ctx, spec, ks)
+
+
+# ------------------------------------------------------------------------------------------------
 CORPUS = [
     # repaired defects (KNOWN_FINDINGS.txt, fixed: property=C03 …) — kept so a regression is re-reported
     ("csbk", "nackRsp", {"lb": 1, "pf": 0, "fid": 0, "crc": 0, "aif": 0, "st": 1, "svc": 4, "rc": 33, "src": 2623266, "tgt": 1234}),
@@ -963,13 +1880,22 @@ CORPUS = [
 ]
 
 
-def run_fields_case(ctx, kind, variant, vals, enc_pairs, desc, sample=None):
+def run_fields_case(ctx, kind, variant, vals, enc_pairs, desc, sample=None, dec_pairs=None):
     ctx.case(desc, nontrivial=True, sample=sample)
     ctx.count(f"{kind.name}:fields:{variant.name}")
     r = check_fields(ctx, kind, variant, vals)
     if r is not None:
-        line, _, p, bits = r
+        line, dec, p, bits = r
         enc_pairs.append((line, kind.enc_out(p, bits)))
+        if dec_pairs is not None and dec is not None:
+            # the decode of these bits as the model must see it (same text as check_bits), from the calls already made
+            q, e1 = dec
+            out = "ERR as_bits" if isinstance(e1, str) else f"ok {kind.fmt(q)} {sbits(e1)}"
+            if kind.extra_check and not isinstance(e1, str):
+                x = kind.extra_check(q)
+                if x:
+                    out += " EXTRA " + x
+            dec_pairs.append((kind.dec_line(sbits(bits)), out))
         return p
     return None
 
@@ -980,7 +1906,17 @@ def run(ctx):
         "0, max, each walking-one value / every enum member while the other fields are random — plus all-random field tuples; decode side: "
         "structured-random right-length bit strings (implemented opcodes favoured, inner enumerations made valid, CRC field zeroed in 15 %) "
         "and single-bit mutations of valid encodings; every value of every element. A case is non-trivial unless stated; distinct = distinct "
-        "(kind, variant, field tuple) / (kind, bit string) / (element, value)"
+        "(kind, variant, field tuple) / (kind, bit string) / (element, value). Special tokens: a dictionary of byte order marks, NUL runs, "
+        "CR / LF forms, 7F/80 boundaries, all-ones, surrogates / invalid UTF-8, ASCII specials and protocol constants (CRC masks, sync "
+        "patterns, ports, special addresses) is written at EVERY octet offset (and right-aligned) of every opaque / text-like field of every "
+        "variant (talker alias data, raw_data, broadcast_params, block data, PI data, UDP user data, short-LC addresses; check fields and "
+        ">= 16-bit integers with a rotating third in quick), each placement crossed with every value of every selector field of the variant "
+        "(enum members, flags, small integers, check-field width; pairwise covering, complete cross product in thorough), on random / zero / "
+        "all-ones background; 7-bit tokens at every bit offset of the payload fields of at most 64 bits; decode side: the tokens over valid "
+        "encodings at every octet offset and (rotating token) at every bit offset of the PDU. History: for every element instance and every "
+        "PDU variant, as_bits / from_bits / as_bytes / from_bytes are called twice (results must be distinct objects), a returned bitarray / "
+        "object / the argument is changed in place (13 idioms) and the call repeated, PDUs carrying the element are built and round-tripped "
+        "afterwards, results are held across other calls and the whole run and re-verified"
     )
     ctx.trusted_base += [
         "Lean 4.33 kernel",
@@ -989,14 +1925,24 @@ def run(ctx):
         "the CRC functions are parameters of the theorems; the driver instantiates them with a plain bitwise CRC that the correspondence compares with CRC16/CRC9/CRC8 of /repo",
         "GPS Info: raw signed integers n are modelled; float step n*(360/2^25) and back is exact in IEEE double (45*n < 2^53) — cross-checked by the harness on all boundary and random raw values",
         "bitarray / enum / Python are trusted as the substrate of the implementation",
+        "the Lean models are pure functions of their arguments; that as_bits / from_bits / as_bytes / from_bytes / convert of the code are too "
+        "(fresh result objects, no state kept between calls, arguments left alone) is not proved but probed on the real code by the history probes "
+        "of this run (every element instance and PDU variant x 13 in-place idioms, results held across the run)",
     ]
     ctx.assumptions += [
         "crc_ok / crc9_ok (integrity indicators, property C04) are not part of the compared field tuple",
         "in-range field values: WF predicates of Model/Pdu*.lean (e.g. bit_padding 8 bits, blocks_to_follow < 128, no CRC-32 / DBSN on block variants that do not carry them)",
+        "mutable default arguments of the constructors (CSBK.broadcast_params, DataHeader.bit_padding: one object shared by every PDU that does not carry "
+        "the field) are hidden state in the sense of property C19 and are left alone by the history probes",
     ]
     check_elements(ctx)
     check_gps_floats(ctx)
     ks = {k.name: k for k in kinds()}
+    toks = token_dictionary()
+    ctx.count("token:dictionary-size", len(toks))
+    # results of the whole run are held and re-verified after every kind and at the end
+    ctx.hold = Holder(every=5, cap=ctx.budget(6000, 40000))
+    held_elements = alias_elements(ctx, ks)
     # ---- corpus
     for kname, vname, vals in CORPUS:
         k = ks.get(kname)
@@ -1011,6 +1957,7 @@ def run(ctx):
             ctx.correspond(f"{kname}.enc", pairs)
     # ---- per kind
     for k in ks.values():
+        alias_pdus(ctx, k, ks)
         enc_pairs = []
         n_random = ctx.budget(200, 2000)
         reps = ctx.budget(2, 8)
@@ -1031,6 +1978,21 @@ def run(ctx):
                 run_fields_case(ctx, k, var, vals, enc_pairs, (k.name, var.name, json.dumps(vals, sort_keys=True)))
         if not ctx.search_only and ctx.driver_ok and enc_pairs:
             ctx.correspond(f"{k.name}.enc", enc_pairs)
+        # special tokens at every octet offset of every opaque field x selector values
+        tok_pairs, tok_dec_pairs = [], []
+        for var in k.variants:
+            for desc, vals, tcls in token_field_cases(ctx, var, ctx.rng, toks):
+                ctx.count(f"token:{tcls}")
+                ctx.count(f"token-field:{k.name}.{var.name}.{desc[0]}")
+                run_fields_case(ctx, k, var, vals, tok_pairs, ("tok", k.name, var.name, desc, json.dumps(vals, sort_keys=True)),
+                                sample={"kind": k.name, "variant": var.name, "token": desc[1], "bit_offset": desc[2], "fields": vals}
+                                if (k.name, var.name, desc[1], desc[2], desc[3]) == ("flc", "talkerAliasHeader", "fffe", 8, 0) else None,
+                                dec_pairs=tok_dec_pairs)
+        if not ctx.search_only and ctx.driver_ok and tok_pairs:
+            ctx.correspond(f"{k.name}.enc(tokens)", tok_pairs)
+            seen_dec = set()
+            tok_dec_pairs = [x for x in tok_dec_pairs if not (x[0] in seen_dec or seen_dec.add(x[0]))]
+            ctx.correspond(f"{k.name}.dec(tokens)", tok_dec_pairs)
         # rate-coded blocks: convert(new type) — used by the burst parser's clients (C01, C07)
         if getattr(k, "rate", None) and not ctx.search_only and ctx.driver_ok:
             cname, tname, members = k.rate
@@ -1076,6 +2038,10 @@ def run(ctx):
                 if len(b):
                     b.invert(ctx.rng.randrange(len(b)))
                     seeds.append(b)
+        if k.length != 8:
+            for desc, b, tcls in token_overlay_cases(ctx, k, ctx.rng, toks):
+                ctx.count(f"token-overlay:{desc[0]}:{k.name}")
+                seeds.append(b)
         for b in seeds:
             s = sbits(b)
             if s in seen:
@@ -1106,6 +2072,9 @@ def run(ctx):
                         out = err or f"ok {k.fmt(o)} {sbits(e1)}"
                     wl.append((k.dec_line(sbits(b)), out))
             ctx.correspond(f"{k.name}.dec(wrong length)", wl)
+        ctx.hold.verify(ctx)
+    ctx.hold.verify(ctx)
+    alias_elements_final(ctx, held_elements)
 
 
 def model_says(prop, line):
@@ -1120,19 +2089,48 @@ def model_says(prop, line):
         return f"(model driver not available: {e})"
 
 
-class ReplayCtx:
-    def __init__(self):
-        self.failures = []
-        self.hist = {}
+ReplayCtx = SubCtx
 
-    def fail(self, kind, input, what, expected=None, actual=None):
-        self.failures.append((kind, what, expected, actual))
 
-    def count(self, *a, **k):
-        pass
+def mini_sweep(r, ks, n=25):
+    """a fixed small sweep over every kind (the 'other calls' of a held-result replay)"""
+    import random
 
-    def case(self, *a, **k):
-        pass
+    rng = random.Random(0)
+    sub = SubCtx()
+    for k in ks.values():
+        for var in k.variants:
+            for _ in range(n):
+                check_fields(sub, k, var, var.random_vals(rng))
+        for _ in range(n):
+            check_bits(sub, k, k.bit_seeds(rng))
+
+
+def replay_alias(r, inp, ks):
+    probe = inp.get("probe")
+    if probe == "element":
+        probe_element(r, inp, ks)
+    elif probe == "pdu":
+        probe_pdu(r, inp, ks)
+    elif probe == "element-held":
+        held = alias_elements(r, ks)
+        mini_sweep(r, ks)
+        alias_elements_final(r, held)
+    elif probe == "held":
+        first = inp.get("first") or {}
+        k = ks.get(first.get("kind"))
+        if k is None:
+            print("unknown kind", first.get("kind"))
+            return
+        h = Holder(1, 16)
+        r.hold = h
+        if first.get("mode") == "fields":
+            check_fields(r, k, next(v for v in k.variants if v.name == first["variant"]), first["fields"])
+        else:
+            check_bits(r, k, bitarray(first["bits"] if first["bits"] != "-" else ""))
+        r.hold = None
+        mini_sweep(r, ks)
+        h.verify(r)
 
 
 def replay(obj):
@@ -1154,6 +2152,8 @@ def replay(obj):
                     out = check_element_value(r, cls, w, inp["value"])
         print("implementation:", out)
         print("model         :", model_says(PROP, line))
+    elif inp.get("kind") == "alias":
+        replay_alias(r, inp, {k.name: k for k in kinds()})
     elif inp.get("mode") == "gps-float":
         w, n = inp["width"], inp["raw"]
         step = 360 / 2**25 if w == 25 else 180 / 2**24
